@@ -158,6 +158,16 @@ class Module:
             for child in ast.iter_child_nodes(node):
                 child._parent = node
         self.tree._parent = None
+        # evaluation-order index (line numbers are out of order after
+        # inlining / unrolling)
+        counter = [0]
+
+        def number(n):
+            n._pos = counter[0]
+            counter[0] += 1
+            for c in ast.iter_child_nodes(n):
+                number(c)
+        number(self.tree)
 
     def loc(self, node):
         return "%s:%s" % (os.path.basename(self.relpath),
@@ -499,6 +509,27 @@ def walk_no_nested(node):
         first = False
         yield n
         todo.extend(ast.iter_child_nodes(n))
+
+
+def npos(node):
+    """Position of a node in evaluation order within its module."""
+    p = getattr(node, "_pos", None)
+    if p is None:
+        return (getattr(node, "lineno", 0) * 1000 +
+                getattr(node, "col_offset", 0))
+    return p
+
+
+def preorder(node):
+    """Nodes in source/evaluation order, not descending into nested
+    function/class definitions (line numbers are not reliable after
+    inlining and unrolling)."""
+    yield node
+    for c in ast.iter_child_nodes(node):
+        if isinstance(c, (ast.FunctionDef, ast.AsyncFunctionDef,
+                          ast.ClassDef, ast.Lambda)):
+            continue
+        yield from preorder(c)
 
 
 def calls_in(node):
